@@ -7,8 +7,10 @@
  *   P <id> <fmt> <xt> <memk> <api> <n> <layout> <hint> <exit>
  *        api    : put | iput | bput | iput_varn | bput_varn | put_varn
  *        layout : c  (contiguous, typed API)  | x (contiguous, flexible API) | v<bl>_<st> (flexible, MPI_Type_vector(n/bl, bl, st))
+ *                 k<k> (MPI_Type_contiguous(k, elem), bufcount n/k) | K<k1>_<k2> (nested contiguous) | q<bl> (contiguous of
+ *                 vector(2, bl, bl): dense but decoded as non-contiguous)
  *        hint   : auto | enable | disable          (nc_in_place_swap)
- *        exit   : wait | wait_all | cancel | close  (ignored for put / put_varn: blocking return)
+ *        exit   : wait | wait_all | cancel | close  (put / put_varn: `wait` = independent API, anything else = collective)
  *   G <id> <fmt> <xt> <memk> <api> <rows> <cols> <layout>
  *        api    : get | iget            layout : c | x | v<bl>_<st> | m (typed varm, transposed imap) | w<bl>_<st> (flexible vector + transposed imap)
  * The variable is 1-D [n] (P) or 2-D [rows][cols] (G) of external type xt; element k holds 1 + ((id*7919 + k*104729) % LIM).
@@ -85,7 +87,7 @@ int main(int argc, char **argv)
         {
             int es = ELSZ[memk], flex = (layout[0] != 'c' && layout[0] != 'm');
             long long bl = n, st = n, cnt = 1, extent, L = lim_of(memk, xt), i;
-            MPI_Datatype el = mpitype(memk), vt = MPI_DATATYPE_NULL, buftype;
+            MPI_Datatype el = mpitype(memk), vt = MPI_DATATYPE_NULL, vt2 = MPI_DATATYPE_NULL, buftype;
             MPI_Offset bufcount;
             unsigned char *raw, *body, *orig, *scrib;
             int transposed = (layout[0] == 'm' || layout[0] == 'w');
@@ -95,6 +97,20 @@ int main(int argc, char **argv)
             orig = malloc(extent * es + 1); scrib = malloc(extent * es + 1);
             memset(raw, 0xA5, 2 * GUARD + extent * es);
             if (layout[0] == 'v' || layout[0] == 'w') { MPI_Type_vector((int)cnt, (int)bl, (int)st, el, &vt); MPI_Type_commit(&vt); buftype = vt; bufcount = 1; }
+            else if (layout[0] == 'k') {           /* k<k>: MPI_Type_contiguous(k, elem), bufcount = n/k */
+                long long k1 = 1; sscanf(layout + 1, "%lld", &k1);
+                MPI_Type_contiguous((int)k1, el, &vt); MPI_Type_commit(&vt); buftype = vt; bufcount = n / k1;
+            }
+            else if (layout[0] == 'K') {           /* K<k1>_<k2>: contiguous(k1, contiguous(k2, elem)), bufcount = n/(k1*k2) */
+                long long k1 = 1, k2 = 1; sscanf(layout + 1, "%lld_%lld", &k1, &k2);
+                MPI_Type_contiguous((int)k2, el, &vt2); MPI_Type_contiguous((int)k1, vt2, &vt); MPI_Type_commit(&vt);
+                buftype = vt; bufcount = n / (k1 * k2);
+            }
+            else if (layout[0] == 'q') {           /* q<bl>: contiguous(n/(2*bl), vector(2, bl, bl, elem)): dense, bufcount 1 */
+                long long b1 = 1; sscanf(layout + 1, "%lld", &b1);
+                MPI_Type_vector(2, (int)b1, (int)b1, el, &vt2); MPI_Type_contiguous((int)(n / (2 * b1)), vt2, &vt); MPI_Type_commit(&vt);
+                buftype = vt; bufcount = 1;
+            }
             else { buftype = el; bufcount = n; }
             if (line[0] == 'P') {
                 MPI_Offset start[1] = {0}, count[1] = {n}, s2[2][1], c2[2][1], *sp[2], *cp[2];
@@ -107,13 +123,14 @@ int main(int argc, char **argv)
                 }
                 memcpy(orig, body, extent * es);
                 if (!strcmp(api, "bput") || !strcmp(api, "bput_varn")) ncmpi_buffer_attach(ncid, n * ELSZ[xt] + 64);
-                if (isnb && !strcmp(ex, "wait")) ncmpi_begin_indep_data(ncid);
+                if (!strcmp(ex, "wait")) ncmpi_begin_indep_data(ncid);   /* blocking calls: exit `wait` = independent API */
+                if (!flex) { bufcount = n; buftype = el; }
                 if (!strcmp(api, "put"))
-                    rc = flex ? ncmpi_put_vara_all(ncid, varid, start, count, body, bufcount, buftype)
-                              : ncmpi_put_vara_all(ncid, varid, start, count, body, n, el);
+                    rc = strcmp(ex, "wait") ? ncmpi_put_vara_all(ncid, varid, start, count, body, bufcount, buftype)
+                                            : ncmpi_put_vara(ncid, varid, start, count, body, bufcount, buftype);
                 else if (!strcmp(api, "put_varn"))
-                    rc = flex ? ncmpi_put_varn_all(ncid, varid, 2, sp, cp, body, bufcount, buftype)
-                              : ncmpi_put_varn_all(ncid, varid, 2, sp, cp, body, n, el);
+                    rc = strcmp(ex, "wait") ? ncmpi_put_varn_all(ncid, varid, 2, sp, cp, body, bufcount, buftype)
+                                            : ncmpi_put_varn(ncid, varid, 2, sp, cp, body, bufcount, buftype);
                 else if (!strcmp(api, "iput"))
                     rc = flex ? ncmpi_iput_vara(ncid, varid, start, count, body, bufcount, buftype, &reqid)
                               : ncmpi_iput_vara(ncid, varid, start, count, body, n, el, &reqid);
@@ -135,8 +152,8 @@ int main(int argc, char **argv)
                     if (!strcmp(ex, "wait")) rcx = ncmpi_wait(ncid, 1, &reqid, &stt);
                     else if (!strcmp(ex, "wait_all")) rcx = ncmpi_wait_all(ncid, 1, &reqid, &stt);
                     else if (!strcmp(ex, "cancel")) rcx = ncmpi_cancel(ncid, 1, &reqid, &stt);
-                    if (!strcmp(ex, "wait")) ncmpi_end_indep_data(ncid);
                 }
+                if (!strcmp(ex, "wait")) ncmpi_end_indep_data(ncid);
                 if (strcmp(ex, "close") || !isnb) {
                     /* read back through the external type */
                     int xs = ELSZ[xt];
@@ -185,6 +202,7 @@ int main(int argc, char **argv)
                 ncmpi_close(ncid);
             }
             if (vt != MPI_DATATYPE_NULL) MPI_Type_free(&vt);
+            if (vt2 != MPI_DATATYPE_NULL) MPI_Type_free(&vt2);
             free(raw); free(orig); free(scrib);
         }
         fflush(out);
